@@ -62,6 +62,7 @@ type afSess struct {
 }
 
 type afStep struct {
+	SleepMs  int               `json:"sleepMs"` // real time to let pass before this step (long-running process, deadlines passing)
 	Slug     string            `json:"slug"` // google | okta | other
 	Endpoint string            `json:"endpoint"`
 	Method   string            `json:"method"`
@@ -99,6 +100,8 @@ type afCase struct {
 }
 
 type afWorld struct {
+	lastCode     string
+	lastCodeEnds time.Time
 	c        afCase
 	handler  http.Handler
 	mu       sync.Mutex
@@ -351,6 +354,9 @@ func htmlStructure(body string) (string, bool) {
 }
 
 func (w *afWorld) step(st *afStep) M {
+	if st.SleepMs > 0 {
+		time.Sleep(time.Duration(st.SleepMs) * time.Millisecond)
+	}
 	for time.Now().Nanosecond() > 700_000_000 {
 		time.Sleep(20 * time.Millisecond)
 	}
@@ -484,9 +490,28 @@ func (w *afWorld) step(st *afStep) M {
 			code = mk(w.cookieCi["google"], 600, 3000)
 		case "garbage":
 			code = "bm90LWEtY29kZQ"
+		case "short-lived":
+			// a genuine code whose session lifetime ends one second from now (sign-in shortly before the lifetime's end)
+			code = mk(w.codeCi, 600, 1)
+			w.lastCode, w.lastCodeEnds = code, now.Add(time.Second)
+		case "repeat":
+			// the very same code string again (the proxy retrying, or a replay)
+			code = w.lastCode
 		}
 		form.Set("code", code)
-		codeInfo = M{"kind": st.Code, "email": "ann@x.io", "access": "at-code", "refreshTok": "rt-code", "refresh": 600}
+		kind := st.Code
+		switch st.Code {
+		case "short-lived":
+			kind = "genuine"
+		case "repeat":
+			kind = "genuine"
+			if code == "" {
+				kind = ""
+			} else if time.Now().After(w.lastCodeEnds) {
+				kind = "expired-lifetime"
+			}
+		}
+		codeInfo = M{"kind": kind, "email": "ann@x.io", "access": "at-code", "refreshTok": "rt-code", "refresh": 600}
 	}
 	body := ""
 	if st.Method == "POST" {
